@@ -1349,6 +1349,38 @@ def check_c19(A: Analysis, col: Collector):
         col.ok("C19.hash-check", "Task._hash_changes recomputes the hashes and compares every key with the recorded self._hashes", A.loc(hc.node))
     else:
         col.fail("C19.hash-check", hc.qualname, "hash-changes-comparison", "Task._hash_changes no longer compares recomputed hashes with the recorded ones", A.loc(hc.node))
+    # every per-field hash is computed afresh from the current value (no re-use of earlier hashes,
+    # no type-based shortcuts): otherwise an in-place change of that value goes unnoticed
+    ch = A.func("pydra.compose.base.task.Task._compute_hashes")
+    col.scope(ch.qualname, hc.qualname)
+    rets = [n for n in walk_own(ch.node) if isinstance(n, ast.Return) and isinstance(n.value, ast.Tuple) and len(n.value.elts) == 2]
+    if not rets or not isinstance(rets[0].value.elts[1], ast.Name):
+        raise AnalysisError("Task._compute_hashes: `return <hash>, <per-field hashes>` not found")
+    hv = rets[0].value.elts[1].id
+    sources = []
+    for n in walk_own(ch.node):
+        if isinstance(n, ast.Assign):
+            for t in n.targets:
+                if isinstance(t, ast.Name) and t.id == hv:
+                    if isinstance(n.value, ast.DictComp):
+                        sources.append((n, n.value.value, bool(n.value.generators[0].ifs)))
+                    elif not (isinstance(n.value, ast.Dict) and not n.value.keys):
+                        sources.append((n, n.value, False))
+                if isinstance(t, ast.Subscript) and isinstance(t.value, ast.Name) and t.value.id == hv:
+                    sources.append((n, n.value, False))
+    okh = bool(sources)
+    for n, v, filtered in sources:
+        fresh = isinstance(v, ast.Call) and any(q.endswith("hash_function") or q.endswith("hash_object") or q.endswith("hash_single") for q in A.callee_names(v, ch))
+        if not fresh or filtered:
+            okh = False
+            col.fail("C19.hash-check", ch.qualname, "field-hash-not-recomputed", f"`{norm(n, 70)}`: a per-field hash is not computed from the field's current value (re-used / filtered): an in-place modification of that input is not detected by the hash-change check", A.loc(n))
+    if okh:
+        col.ok("C19.hash-check", "Task._compute_hashes computes every per-field hash afresh with hash_function(value)", A.loc(sources[0][0]))
+    calls_ch = [c for c in A.calls(hc) if isinstance(c.func, ast.Attribute) and c.func.attr == "_compute_hashes"]
+    if calls_ch and all(not c.args and not c.keywords for c in calls_ch):
+        col.ok("C19.hash-check", "Task._hash_changes recomputes with self._compute_hashes() (no shortcuts passed in)", A.loc(calls_ch[0]))
+    else:
+        col.fail("C19.hash-check", hc.qualname, "hash-changes-recompute-args", "Task._hash_changes passes arguments to _compute_hashes (partial recomputation)", A.loc(hc.node))
     # (c) staged inputs are what the body sees
     staged_inputs_rule(A, col, "C19.staging")
 
